@@ -8,7 +8,7 @@ import (
 )
 
 func init() {
-	register("C16", "Decided: R-C16-1 Disconnected is absorbing and the state callback fires only on a change, after the lock is released, with the state just stored and the error read in the same critical section; connState is written only by connStateUpdate; R-C16-2 who reports what: Active only from Connect on an accepting CONNACK, Closed only from the reader goroutine, Disconnected only from Disconnect and before DISCONNECT is written; R-C16-3 reader exit: the error is recorded (unless Disconnected, tested under the lock) before Closed is reported and before Done() is closed; R-C16-4 SetErrorOnce keeps the first error, is the only writer of err, and is called only by the reader goroutine on its own client and by the keep-alive goroutine on the client it watches, before that client is closed; R-C16-5 Done() returns the channel whose only close is the reader goroutine's. Not decided: interleavings of a user Close() with Disconnect(); what the peer does.", checkC16)
+	register("C16", "Decided: R-C16-1 Disconnected is absorbing and the state callback fires only on a change, after the lock is released, with the state just stored and the error read in the same critical section; connState is written only by connStateUpdate; R-C16-2 who reports what: Active only from Connect on an accepting CONNACK, Closed only from the reader goroutine, Disconnected only from Disconnect and before DISCONNECT is written; R-C16-3 reader exit: the error is recorded (unless Disconnected, tested under the lock) before Closed is reported and before Done() is closed; R-C16-4 SetErrorOnce keeps the first error, is the only writer of err, and is called only by the reader goroutine on its own client and by the keep-alive goroutine on the client it watches, before that client is closed; R-C16-5 Done() returns the channel whose only close is the reader goroutine's; R-C16-6 when Disconnect is called the reconnect loop leaves the connection to the queued DISCONNECT (no Close on the `disconnected` path); within R-C16-4, the keep-alive goroutine records KeepAlive's result only while its own context is live. Not decided: interleavings of a user Close() with Disconnect(); what the peer does.", checkC16)
 }
 
 func (c *Ctx) stateConst(name string) (int64, bool) {
